@@ -30,6 +30,7 @@ RULE = (
     "product of retained tags.  Random layer: Hypothesis histories up to 40 candidates over values -5..5 and 4 tags.  evaluations = histories x "
     "splits x policies x targets executed.  Non-trivial: the history contains an improving candidate after a tagged one, or a tie; distinct by "
     "SHA-1 of the history."
+    '  Every combination result is then offered four more candidates (model compared after each); the combination of nothing must be infinitely bad for the merge policy.'
 )
 ASSUMPTIONS = ["finite candidate values; tags are truthy (non-empty strings or tuples)", "default-initialised entries"]
 BUDGET = {"quick": {"random": 3000}, "thorough": {"random": 60000}}
